@@ -7,6 +7,7 @@ Import ListNotations.
 Require Import ITree.Model.Common ITree.Model.RBTree ITree.Model.MapModel ITree.Spec.MapSpec.
 Require Import ITree.Proofs.RBElems ITree.Proofs.RBInv ITree.Proofs.MapProofs ITree.Proofs.MapTheorems.
 Require ITree.Model.KeyModel ITree.Proofs.KeyListProofs ITree.Proofs.KeyTheorems.
+Require ITree.Model.ArenaModel ITree.Proofs.ArenaProofs.
 
 (* insertion (the shared core of MapTree / SetTree / KeyExpTree::insert) keeps red-black validity *)
 Theorem C02_insert_rb : forall (ent: Type) (key_of: ent -> Z) (t: tree ent) (slot: N) (e: ent),
@@ -49,3 +50,32 @@ Proof.
   intros cap h s outs V Hr. destruct (KeyTheorems.keytree_rb_bst cap h s outs V Hr) as (A & B & C & D & _).
   repeat split; assumption.
 Qed.
+
+(* the parent-pointer code itself (Model/ArenaModel.v: insert_entity, insert_as_left / insert_as_right,
+   fix_red_black_properties_after_insert with its rotations and replace_parents_child, statement by
+   statement on an arena of nodes with parent / left / right links): if the arena represents a tree
+   with consistent links ([Rep]: every child's parent field names the node it hangs from), then the
+   arena-level insertion terminates within 2*height+2 loop iterations and the arena represents, again
+   with consistent links, exactly the tree of the tree-level model used by every other theorem *)
+Theorem C02_arena_insert : forall (s: ArenaModel.astate) (t: tree ment) (ni: N) (e: ment) (fuel: nat),
+  ArenaProofs.Rep s ArenaModel.EMPTY (ArenaModel.aroot s) t -> List.NoDup (slots ment t) ->
+  ~ List.In ni (slots ment t) -> ni <> ArenaModel.EMPTY -> (2 * height ment t + 2 <= fuel)%nat ->
+  exists s', ArenaModel.arena_insert fuel s ni e = Ret s' /\
+             ArenaProofs.Rep s' ArenaModel.EMPTY (ArenaModel.aroot s') (insert_tree ment mkey t ni e).
+Proof. exact ArenaProofs.arena_insert_refines. Qed.
+
+(* ... and as one step of the map / set: from any state satisfying the invariant, with the pool handing
+   out the slot *)
+Theorem C02_arena_map_insert : forall (a: ArenaModel.astate) (s: mstate) (k v: Z),
+  MInv s -> (forall e, List.In e (ents ment (root s)) -> fst e <> k) ->
+  ArenaProofs.Rep a ArenaModel.EMPTY (ArenaModel.aroot a) (root s) -> (Pool.blen (pl s) < ArenaModel.EMPTY)%N ->
+  exists s' a' i p', Pool.pool_get (pl s) = Some (i, p') /\ m_insert s k v = Ret s' /\
+    ArenaModel.arena_insert (2 * height ment (root s) + 2) a i (k, v) = Ret a' /\
+    ArenaProofs.Rep a' ArenaModel.EMPTY (ArenaModel.aroot a') (root s') /\ MInv s'.
+Proof. exact ArenaProofs.arena_map_insert. Qed.
+
+(* the harness's snapshot function (follow the links from the root, check each parent link) is the
+   executable form of [Rep] *)
+Theorem C02_snapshot_is_rep : forall (fuel: nat) (s: ArenaModel.astate) (p x: N) (t: tree ment),
+  ArenaProofs.read_tree fuel s p x = Some t -> ArenaProofs.Rep s p x t.
+Proof. exact ArenaProofs.read_tree_sound. Qed.
